@@ -302,6 +302,20 @@ def runHistory (env : EnvFs) : List Run → FS → List (FS × Run × Outcome)
     let o := runRun env r fs
     (fs, r, o) :: runHistory env rs o.fs
 
+/-! ### `_copy_header` before `fix_copy_header_into_directory` -/
+
+/-- The copy path of the unchanged code used `shutil.copy(resource, target)`: with a directory at `target` the file is
+created *inside* it under the resource's name `res`, the call succeeds, and the file post-processors are then applied to
+`target` — the directory (`SetFileMode` puts the file mode on it). -/
+def copyIntoDirBeforeFix (env : EnvFs) (pps : List FilePP) (w : Write) (res : String) (fs : FS) : Outcome :=
+  match resolve fs w.path with
+  | .found q (.dir m) =>
+    let inner := q ++ [res]
+    let fs1 := fs.set inner (.file ⟨w.content, match w.copyMode with | some cm => permBits cm | none => env.createMode⟩)
+    let m' := (applyPPs (pathStr w.path) pps 0 ⟨"", addWriteBits m⟩).file.mode     -- what the post-processors leave as mode
+    ⟨fs1.set q (.dir m'), [.chmod w.path (addWriteBits m), .openW (w.path ++ [res])], none⟩
+  | _ => ⟨fs, [], none⟩
+
 /-! ### Specification-side notions -/
 
 /-- Everything `fs` contains is in `fs'`, unchanged (files with content and mode, directories with their mode, links). -/
@@ -316,6 +330,12 @@ def sameKind : Node → Node → Prop
 /-- `fs'` has everything `fs` has, with the same kind (a link stays the same link): entries are only added, file
 contents / modes and directory modes may differ. -/
 def Ext (fs fs' : FS) : Prop := ∀ p n, fs p = some n → ∃ n', fs' p = some n' ∧ sameKind n n'
+
+/-- The real path a path resolves to (`os.path.realpath` of something that exists). -/
+def realOf (fs : FS) (p : P) : Option P :=
+  match resolve fs p with
+  | .found q _ => some q
+  | _ => none
 
 /-- Tree shape: every entry sits in a directory. -/
 def WF (fs : FS) : Prop := ∀ p n, fs p = some n → p ≠ [] ∧ isRealDir fs p.dropLast = true
